@@ -186,6 +186,14 @@ def gen_tree(rng, d, top=True):
     if top and rng.random() < 0.12:                                    # an aggregate directly over a feature, alone or inside arithmetic
         t = ['fun', rng.choice(AGG), ['name', rng.choice(['a', 'b', 's'])]]
         return t if rng.random() < 0.5 else ['bin', rng.choice(['+', '-', '*']), t, gen_tree(rng, 1, False)]
+    if top and rng.random() < 0.06:
+        # a long expression: more than ten elementary operations (every one of them leaves an intermediate result that the evaluation must clean up), sometimes with an aggregate at the end
+        t = ['name', rng.choice(['a', 'b', 's'])]
+        for _ in range(rng.randint(10, 13)):
+            t = ['bin', rng.choice(['+', '-', '+', '*']), t, rng.choice([['name', rng.choice(['a', 'b', 's'])], ['lit', rng.choice(['1', '2', '0.5'])]])]
+        if rng.random() < 0.4:
+            t = ['bin', '+', t, ['fun', rng.choice(AGG), ['name', rng.choice(['a', 'b', 's'])]]]
+        return t
     if top and rng.random() < 0.1:
         # aggregates evaluated AFTER other intermediate results of the same expression (a normalisation, a centred sum): every intermediate result is its own value
         nm = lambda: ['name', rng.choice(['a', 'b', 's'])]
